@@ -982,7 +982,15 @@ def broadcast_and_apply(  # noqa: C901
                         ),
                     ):
                         offsets = x.offsets
-                        lencontent = offsets[-1] if len(offsets) > 1 else 0
+                        if len(offsets) > 1:
+                            lencontent = offsets[-1]
+                        else:
+                            # no lists: no content is reachable, and the output
+                            # must not keep an offset beyond its (empty) content
+                            lencontent = 0
+                            offsets = type(offsets)(
+                                nplike.zeros(1, dtype=nplike.asarray(offsets).dtype)
+                            )
                         nextinputs.append(x.content[:lencontent])
 
                     elif isinstance(
